@@ -613,7 +613,40 @@ def c17(ctx):
     vlib.write_evidence("C17", ctx.tier, ctx.seed, "fault_enumeration", cov, time.time() - ctx.t0, nviol, ["cargo's feature resolution; the probe crate references exactly the selected items"])
     return 1 if nviol else 0
 
-CHECKS = {"C17": c17, "C16": c16, "C02": c02, "C11": c11, "C06": c06, "C09": c09, "C01": c01, "C03": c03, "C04": c04, "C12": c12, "C13": c13, "C14": c14, "C20": c20}
+def c18(ctx):
+    q = ctx.quick()
+    cfgt = "CONSTANTS EB = %d\nMB = %d\nW = %d\nINIT Init\nNEXT Next\nCHECK_DEADLOCK FALSE\nINVARIANT C18\n"
+    runs = []
+    for (eb, mb, w) in ([(4, 3, 6)] if q else [(4, 3, 6), (5, 4, 8), (5, 6, 10)]):
+        r = vlib.tlc("NumberConv", cfgt % (eb, mb, w), "C18_conv_%d_%d_%d" % (eb, mb, w), workers=4, timeout=1800)
+        vlib.tlc_ok(r, "NumberConv")
+        log("TLC NumberConv EB=%d MB=%d W=%d: all %d bit patterns%s" % (eb, mb, w, r["distinct"], (" VIOLATED " + str(r["violated"])) if r["violated"] else ""))
+        runs.append(r)
+    def jobs(profile):
+        return [base_job(ctx, "conv", "%s_conv" % profile, profile, random=1000000 if q else 100000000, seed=ctx.seed)]
+    f, s = run_jobs(ctx, jobs)
+    sv = [("NumberConv", r["violated"], r["log"]) for r in runs if r["violated"]]
+    return finish(ctx, {"conversion"}, runs, f, s,
+                  "Number::from(f64) on the structured boundary set (every power of two +-2 ulps in both signs, +-2^63 / 2^53 / 2^62 / 2^64 and 12 neighbours each side, halves, +-0, subnormals, NaNs with payloads, infinities) and seeded random bit patterns, Number::from(i64) on boundary and random values, against the predicate of spec/NumberConv.tla at W=64; non-trivial = distinct doubles that are integral, non-finite or >= 2^52 in magnitude",
+                  extra={"invariants_checked": ["Lossless", "Canonical", "BitsKept", "NaNStaysNaN"], "toy_formats_exhaustive": [[4, 3, 6]] if q else [[4, 3, 6], [5, 4, 8], [5, 6, 10]]}, spec_viol=sv)
+
+def c19(ctx):
+    q = ctx.quick()
+    vlib.vocab_json()
+    # the literal grammar of the specification on every short string over digits, point, i and sign characters
+    ALPHABETS["num19"] = ["0", "1", "9", ".", "i", "-", "+"]
+    models = run_lexer_models(ctx, EVALS, ["num19"], 4 if q else 6, ["LiteralForm", "Progress"])
+    def jobs(profile):
+        js = replay_jobs(ctx, None, profile, models, {"assignments": 1, "event_every": 30, "event_cap": 3000, "profile": profile})
+        js.append(base_job(ctx, "literals", "%s_lit" % profile, profile, random=3000 if q else 300000, maxlen=5 if q else 7, seed=ctx.seed))
+        return js
+    f, s = run_jobs(ctx, jobs)
+    sv = [(k, r["violated"], r["log"]) for k, r in models.items() if r["violated"]]
+    return finish(ctx, {"literal", "roundtrip", "value", "ok_on_reject", "err_on_defined", "ok_on_semantic_err"}, list(models.values()), f, s,
+                  "literals: every string of length <= %d over {0,1,5,9,.}, digit runs of 15..400 digits with every position of the point, leading/trailing zeros, halfway cases - eval_f64/eval_complex must return the correctly rounded double (decided exactly with big-integer arithmetic), eval_i64 / eval_number / eval_decimal the exact value; print -> re-read round trip over boundary pools and seeded random bit patterns per type; every string of length <= K over {0,1,9,.,i,-,+} replayed against the specification's literal grammar; non-trivial = literals of >= 2 characters and every round trip" % (5 if q else 7),
+                  extra={"invariants_checked": ["LiteralForm", "Progress"]}, spec_viol=sv)
+
+CHECKS = {"C18": c18, "C19": c19, "C17": c17, "C16": c16, "C02": c02, "C11": c11, "C06": c06, "C09": c09, "C01": c01, "C03": c03, "C04": c04, "C12": c12, "C13": c13, "C14": c14, "C20": c20}
 
 def replay(prop, path):
     f = json.load(open(path))
